@@ -57,7 +57,7 @@ type c01Case struct {
 	Path         string        `json:"path"` // put | put-md5 | post | copy | api
 	Overwrite    bool          `json:"overwrite,omitempty"`
 	PrevByCopy   bool          `json:"prevByCopy,omitempty"` // with Overwrite: the replaced object was itself created by a server-side copy
-	CopySelf     bool          `json:"copySelf,omitempty"` // path copy: the destination is the source key itself
+	CopySelf     bool          `json:"copySelf,omitempty"`   // path copy: the destination is the source key itself
 	Frag         s3x.Frag      `json:"frag,omitempty"`
 }
 
